@@ -16,8 +16,27 @@ def outcome(f, *a, **k):
         return ("exc", type(e).__name__)
 
 
-def observe(u):
+def observe(u, reverse=False):
+    """``reverse``: read the accessors in the opposite order (values that one accessor plants into the cache for another one then show)"""
     d = {}
+    if reverse:
+        late = {}
+        late["relative"] = outcome(lambda: str(u.relative()))
+        late["origin"] = outcome(lambda: str(u.origin()))
+        late["parent"] = outcome(lambda: str(u.parent))
+        late["is_absolute"] = outcome(u.is_absolute)
+        late["is_default_port"] = outcome(u.is_default_port)
+        late["human_repr"] = outcome(u.human_repr)
+        late["query"] = outcome(lambda: list(u.query.items()))
+        late["bool"] = outcome(bool, u)
+        late["hash"] = outcome(hash, u)
+        late["bytes"] = outcome(bytes, u)
+        late["repr"] = outcome(repr, u)
+        late["str"] = outcome(str, u)
+        for a in reversed(ACCESSORS):
+            d[a] = outcome(getattr, u, a)
+        d.update(late)
+        return d
     for a in ACCESSORS:
         d[a] = outcome(getattr, u, a)
     d["str"] = outcome(str, u)
